@@ -3,7 +3,7 @@ C04 for a recursive reference language, part 5: well-formedness, fuel, and the a
 statements and statement lists by MUTUAL INDUCTION over the language (`stmt_ok` / `stmts_ok`), then of
 whole programs by the top-level loop `source_file_contents` / `item` (`sourceFile_ok`).
 -/
-import Oq3.Lemmas.LangEvCtl
+import Oq3.Lemmas.LangEvDef
 set_option linter.unusedSimpArgs false
 set_option linter.unusedVariables false
 
@@ -32,6 +32,11 @@ def needS : Stmt → Nat
   | .ifElse c thn els => max (6 * size c) (max (needL thn) (needL els)) + 6
   | .whileS c body => max (6 * size c) (needL body) + 6
   | .forS _ lo hi body => max (max (6 * size lo) (6 * size hi)) (needL body) + 8
+  | .gateDef none nq body => max (nq + 5) (needL body + 3) + 3
+  | .gateDef (some k) nq body => max (max (k + 5) (nq + 5)) (needL body + 3) + 3
+  | .defS ps _ body => max (ps.length + 6) (needL body + 3) + 3
+  | .ret none => 8
+  | .ret (some e) => 6 * size e + 9
 /-- fuel that the statement loop needs for the list -/
 def needL : Stmts → Nat
   | .nil => 1
@@ -63,6 +68,9 @@ def firstTokS : Stmt → SyntaxKind
   | .ifElse _ _ _ => .IF_KW
   | .whileS _ _ => .WHILE_KW
   | .forS _ _ _ _ => .FOR_KW
+  | .gateDef _ _ _ => .GATE_KW
+  | .defS _ _ _ => .DEF_KW
+  | .ret _ => .RETURN_KW
 
 theorem toks_firstTok (e : E) : ∃ j ts, toks e = (firstTokE e, j) :: ts := by
   induction e with
@@ -93,6 +101,8 @@ theorem toksS_firstTok (st : Stmt) : ∃ j ts, toksS st = (firstTokS st, j) :: t
     obtain ⟨j, ts, h⟩ := toks_firstTok e
     exact ⟨j, ts ++ [tk .SEMICOLON], by simp [toksS, firstTokS, h]⟩
   | gate args nq => cases args <;> exact ⟨_, _, rfl⟩
+  | gateDef ps nq body => cases ps <;> exact ⟨_, _, rfl⟩
+  | ret e => cases e <;> exact ⟨_, _, rfl⟩
   | _ => exact ⟨_, _, rfl⟩
 
 /-! ### well-formedness: canonical expressions and the Follow restrictions -/
@@ -120,6 +130,9 @@ def WFS : Stmt → Prop
   | .ifElse c thn els => CanonE 1 c ∧ WFL thn ∧ WFL els
   | .whileS c body => CanonE 1 c ∧ WFL body
   | .forS _ lo hi body => CanonE 1 lo ∧ CanonE 1 hi ∧ WFL body
+  | .gateDef _ _ body => WFL body
+  | .defS _ _ body => WFL body
+  | .ret e => ∀ x, e = some x → CanonE 1 x
   | _ => True
 /-- F09e: an assignment keeps looking for a binary operator after its `;`, so the next statement
 must not start with `-` (the only first token of our statements that `current_op` takes for an
@@ -295,6 +308,17 @@ theorem stmt_ok : ∀ (st : Stmt) (F : Nat) (s : P), needS st ≤ F → Rdy 8 s 
   | .forS ty lo hi body, F, s, hF, hr, htk, hwf, _ =>
     stmt_forS ty lo hi body (needL body) F
       (fun F' s' hF' hr' htk' hcl' => stmts_ok body F' s' hF' hr' htk' hcl' hwf.2.2) s hr hF htk hwf.1 hwf.2.1
+  | .gateDef none nq body, F, s, hF, hr, htk, hwf, _ =>
+    stmt_gateDef_none nq body (needL body) F (fun F' s' hF' hr' htk' hcl' => stmts_ok body F' s' hF' hr' htk' hcl' hwf)
+      s hr hF htk
+  | .gateDef (some k) nq body, F, s, hF, hr, htk, hwf, _ =>
+    stmt_gateDef_some k nq body (needL body) F (fun F' s' hF' hr' htk' hcl' => stmts_ok body F' s' hF' hr' htk' hcl' hwf)
+      s hr hF htk
+  | .defS ps ret body, F, s, hF, hr, htk, hwf, _ =>
+    stmt_defS ps ret body (needL body) F (fun F' s' hF' hr' htk' hcl' => stmts_ok body F' s' hF' hr' htk' hcl' hwf)
+      s hr hF htk
+  | .ret none, F, s, hF, hr, htk, _, _ => stmt_ret_none F s hr hF htk
+  | .ret (some e), F, s, hF, hr, htk, hwf, _ => stmt_ret_some e F s hr hF htk (hwf e rfl)
 /-- **every well-formed statement list is accepted by the statement loop** -/
 theorem stmts_ok : ∀ (ss : Stmts) (F : Nat) (s : P), needL ss ≤ F → Rdy 8 s → Toks s s.pos (toksL ss) →
     closer (s.kindAt (s.pos + (toksL ss).length)) → WFL ss →
